@@ -76,6 +76,7 @@ def cases(spec, ctx):
             case["world"] = D.random_world(rng, np_=(1, 4), nq=(1, 4), falsy=True)
             case["cond"] = C.gen_cond(rng, case["kinds"], rng.choice([0, 1, 2]), {"falsy": True})
             case["nested"] = False
+            case["special"] = None
             mid = 1 if len(case["kinds"]) == 3 else rng.randrange(len(case["kinds"]))
             pp = [["a", "p"]] if case["kinds"][mid] == "Q" else []
             if len(case["kinds"]) < 3 and rng.random() < 0.4:
